@@ -1,14 +1,22 @@
 """Configuration of the C17 check (loaded by tools/props.py)."""
-_PRIM = ['float', 'add', 'sub', 'mul', 'div', 'ltb', 'leb', 'eqb']
+_PRIM = ['float', 'add', 'sub', 'mul', 'div', 'ltb', 'leb', 'eqb', 'abs', 'opp', 'compare', 'classify', 'sqrt',
+         'of_uint63', 'normfr_mantissa', 'frshiftexp', 'ldshiftexp', 'next_up', 'next_down']
+_PRIMINT = ['int', 'lsr', 'lsl', 'land', 'lor', 'lxor', 'eqb', 'ltb', 'leb', 'add', 'sub', 'mul', 'div', 'mod',
+            'compare', 'head0', 'tail0']
+# FloatAxioms of the standard library (link between the primitive operations and SpecFloat), used only by the
+# binary64 sign theorems C17_greedy_nonneg_f64 / C17_ls_deconv_nonneg_f64 / C17_f_ge0_reading
+_FLOAT_AXIOMS = ['div_spec', 'leb_spec', 'ltb_spec', 'eqb_spec']
 CFG = {
     'harness': 'phys',
     'model': 'c17',
     'ocaml_pkgs': 'zarith,coq-core.kernel',
     'ocaml_flags': '-rectypes -thread',
-    # Kernel primitives of PrimFloat, as `Print Assumptions` lists them for the one binary64 witness theorem
-    # (C17_length_all_inputs_refuted, a closed term evaluated by vm_compute).  They are primitive operations
-    # of the Coq kernel, not logical axioms; every other theorem is `Closed under the global context`.
-    'axioms': _PRIM + ['PrimFloat.' + p for p in _PRIM],
+    # Kernel primitives of PrimFloat/PrimInt63, as `Print Assumptions` lists them for the binary64 theorems
+    # (C17_length_all_inputs_refuted: a closed term evaluated by vm_compute; C17_*_f64).  They are primitive
+    # operations of the Coq kernel, not logical axioms.  The generic and the Qc theorems are
+    # `Closed under the global context`.
+    'axioms': (_PRIM + ['PrimFloat.' + p for p in _PRIM] + ['PrimInt63.' + p for p in _PRIMINT] + ['Uint63.' + p for p in _PRIMINT]
+               + _FLOAT_AXIOMS + ['FloatAxioms.' + a for a in _FLOAT_AXIOMS]),
     'uses_gen': False,
     'rule': 'differential, bit for bit (16-hex-digit patterns, NaN payload ignored): per case line one waveform and one '
             'response; the REAL nn_greedy_deconvolution for every (offset, look_ahead) of a grid (wire grid 0..=1 x 3..=12 '
@@ -34,8 +42,9 @@ CFG = {
         'powi(2) = x*x; no FMA contraction',
         'binned responses are taken from the hooks verif::wire_response()/pad_response() (binning and JSON parsing are not '
         'modelled); Cholesky step of the wire path only exercised (identity for single-wire blocks: measured bit for bit)',
-        'IEEE laws assumed, not discharged in Coq, when reading C17_greedy_nonneg / C17_scale_covariant for binary64: sign '
-        'rule of division, min of non-negatives, exactness of scaling by 2^k absent overflow/underflow',
+        'sign laws for binary64 are proved from the standard library FloatAxioms (div_spec, leb_spec, ltb_spec, eqb_spec); '
+        'IEEE law assumed, not discharged in Coq, when reading C17_scale_covariant for binary64: exactness of scaling by '
+        '2^k absent overflow/underflow (measured per run)',
     ],
     'level_text': 'Coq theorems over one generic model (any sample type F and operations; instantiated with PrimFloat for '
                   'the bit-exact differential and with exact rationals Qc to show every hypothesis set satisfiable): '
@@ -44,15 +53,16 @@ CFG = {
                   'least-squares selection equals the plain scheme bit for bit incl. the first-strict-minimum tie-break; '
                   '(3) never out of fuel, output length = input length for every sweep, all-zero for too-short waveforms, '
                   'and the selection returns the input length iff some residual is < +inf, else the EMPTY vector '
-                  '(binary64 witness: one sample -2^700); (4) every output is ge0 from three sign laws; (5) exact scale '
+                  '(binary64 witness: one sample -2^700); (4) every output is ge0 from three sign laws, which are proved for binary64 '
+                  '(no output of the float model is negative or -0 for ANY float input: NaN or sign bit clear); (5) exact scale '
                   'covariance incl. all control decisions from op-level laws; (6) an isolated pulse a*R at k is recovered '
                   'as exactly a at k, 0 elsewhere, residual 0, by the offset-0 sweep and by the whole wire selection '
                   '(over Q: any response with 13 negative leading samples).',
     'level_note': 'NOT proved: finiteness of the outputs for all f64 inputs and the 1e-6 recovery figure in binary64 (residual '
                   'growth in the response tail has no useful a-priori bound) - both are measured by the harness on every run '
-                  '(rel17prop, rel17pulse). (4) and (5) are proved from arithmetic laws stated as Section hypotheses; they '
-                  'are proved satisfiable over Qc, and for binary64 they are assumed IEEE laws (sign of a quotient of '
-                  'negatives; scaling by 2^k exact absent overflow/underflow), with rel17scale measuring exactness per run. '
+                  '(rel17prop, rel17pulse). (5) is proved from arithmetic laws stated as Section hypotheses; they are proved '
+                  'satisfiable over Qc (any c > 0), and for binary64 they are assumed IEEE laws (scaling by 2^k exact '
+                  'absent overflow/underflow), with rel17scale measuring exactness per run. '
                   'Multi-wire blocks (Cholesky of the cross-talk matrix) are outside the model; shape, finiteness and sign '
                   'are measured (rel17block). trusted: Coq kernel incl. primitive floats; hand model tied by differential '
                   'run; extraction (ExtrOcamlBasic, ExtrOCamlFloats); harness and driver',
